@@ -67,9 +67,7 @@ class HttpRelayClient(RelayPoolClient):
             self.idle = False
             self._handle_request(result, envelope)
         else:
-            if self.conn:
-                self.conn.close()
-                self.conn = None
+            self._close_conn()
 
     def _b64encode(self, what):
         return b64encode(what.encode('utf-8')).decode('ascii')
@@ -101,8 +99,7 @@ class HttpRelayClient(RelayPoolClient):
             try:
                 http_res.read()
             except Exception:
-                self.conn.close()
-                self.conn = None
+                self._close_conn()
 
     def _handle_request(self, result, envelope):
         method = self.relay.http_verb
@@ -123,11 +120,20 @@ class HttpRelayClient(RelayPoolClient):
 
     def _fail_request(self, result, reply):
         # The attempt must always end with a result or a relay error.
-        if self.conn:
-            self.conn.close()
-            self.conn = None
         if not result.ready():
             result.set_exception(SmtpRelayError.factory(reply))
+        self._close_conn()
+
+    def _close_conn(self):
+        # Closing a TLS connection waits for the peer, and fails on a socket
+        # whose handshake never completed: neither may hold up the client.
+        conn, self.conn = self.conn, None
+        if conn:
+            try:
+                with gevent.Timeout(self.relay.timeout):
+                    conn.close()
+            except (Exception, gevent.Timeout):
+                pass
 
     def _send_request(self, method, result, envelope):
         assert self.conn is not None
@@ -187,8 +193,7 @@ class HttpRelayClient(RelayPoolClient):
         except gevent.Timeout:
             pass
         finally:
-            if self.conn:
-                self.conn.close()
+            self._close_conn()
 
 
 class HttpRelay(RelayPool):
